@@ -33,7 +33,7 @@ func guarded(f func()) (status string) {
 	select {
 	case s := <-done:
 		return s
-	case <-time.After(10 * time.Second):
+	case <-time.After(30 * time.Second):
 		return "timeout"
 	}
 }
